@@ -532,35 +532,69 @@ func ruleLiteralCompare(r *Run) {
 	valF := p.StructField("token", "val")
 	typF := p.StructField("token", "typ")
 	reqToks := fn.Params[1]
-	isReqTok := func(v ssa.Value, f *types.Var) bool {
-		u, ok := v.(*ssa.UnOp)
-		if !ok {
-			return false
-		}
-		fa, ok := u.X.(*ssa.FieldAddr)
-		if !ok || fieldOfAddr(fa) != f {
-			return false
-		}
-		ia, ok := fa.X.(*ssa.IndexAddr)
-		return ok && ia.X == ssa.Value(reqToks)
-	}
-	isTmplTok := func(v ssa.Value, f *types.Var) bool {
-		for _, o := range p.origins(v, originOpts{}) {
-			switch x := o.(type) {
-			case *ssa.Field:
-				st := x.X.Type().Underlying().(*types.Struct)
-				if st.Field(x.Field) == f {
-					return true
-				}
-			case *ssa.UnOp:
-				if fa, ok := x.X.(*ssa.FieldAddr); ok && fieldOfAddr(fa) == f {
-					if ia, ok := fa.X.(*ssa.IndexAddr); !ok || ia.X != ssa.Value(reqToks) {
-						return true
+	// elemField: v reads field f of an element of a token slice - `toks[i].f` directly, or through a copy of the
+	// element (`got := toks[i]; got.f`, `for _, want := range v.toks { want.f }`); returns the slice indexed
+	elemField := func(v ssa.Value, f *types.Var) (ssa.Value, bool) {
+		elemOf := func(e ssa.Value) (ssa.Value, bool) {
+			for _, o := range p.origins(e, originOpts{local: true}) {
+				if u, ok := o.(*ssa.UnOp); ok && u.Op == token.MUL {
+					if ia, ok := u.X.(*ssa.IndexAddr); ok {
+						return ia.X, true
 					}
 				}
 			}
+			return nil, false
+		}
+		for _, o := range p.origins(v, originOpts{local: true}) {
+			switch x := o.(type) {
+			case *ssa.Field:
+				st, ok := x.X.Type().Underlying().(*types.Struct)
+				if !ok || st.Field(x.Field) != f {
+					continue
+				}
+				if base, ok := elemOf(x.X); ok {
+					return base, true
+				}
+				return nil, true // a token value of unknown provenance
+			case *ssa.UnOp:
+				fa, ok := x.X.(*ssa.FieldAddr)
+				if !ok || fieldOfAddr(fa) != f {
+					continue
+				}
+				if ia, ok := fa.X.(*ssa.IndexAddr); ok {
+					return ia.X, true
+				}
+				// field of a local copy of an element
+				if al, ok := fa.X.(*ssa.Alloc); ok {
+					for _, st := range p.cellStores(al) {
+						if base, ok := elemOf(st.Val); ok {
+							return base, true
+						}
+					}
+				}
+				return nil, true
+			}
+		}
+		return nil, false
+	}
+	fromReq := func(base ssa.Value) bool {
+		if base == nil {
+			return false
+		}
+		for _, o := range p.origins(base, originOpts{local: true, throughSlice: true}) {
+			if o == ssa.Value(reqToks) {
+				return true
+			}
 		}
 		return false
+	}
+	isReqTok := func(v ssa.Value, f *types.Var) bool {
+		base, ok := elemField(v, f)
+		return ok && fromReq(base)
+	}
+	isTmplTok := func(v ssa.Value, f *types.Var) bool {
+		base, ok := elemField(v, f)
+		return ok && !fromReq(base)
 	}
 	rejects := func(ifi *ssa.If, succ int) bool {
 		b := ifi.Block().Succs[succ]
